@@ -47,7 +47,7 @@ def snapshot_dir(root):
     return out
 
 
-def run_scenario(sc, base, fast=True, mode='each', real_passes=None, on_test=None, keep=False):
+def run_scenario(sc, base, fast=True, mode='each', real_passes=None, on_test=None, keep=False, quiet_logging=True):
     """Returns Obs with .out (flat ints, comparable with Script.sc_run_each / sc_reduce),
     .perm (model file index -> logical index), plus raw observations for the property oracles."""
     from cvise.utils import testing, statistics
@@ -117,7 +117,7 @@ def run_scenario(sc, base, fast=True, mode='each', real_passes=None, on_test=Non
     os.environ['TMPDIR'] = tmpd
     o.before = snapshot_dir(work)
     try:
-        with shim.installed(sc.get('sched', []), fast_test if fast else None) as st:
+        with shim.installed(sc.get('sched', []), fast_test if fast else None, quiet_logging=quiet_logging) as st:
             if on_test:
                 st.on_test = on_test
             o.shim = st
